@@ -102,3 +102,37 @@ UNITS['scopedremover'] = dict(
       (r'^std::function<', 'function', 'Callback'),
     ],
 )
+
+CRC = 'CounterRemover<CallbackList<void (VArg), Pol>, void>'
+CRD = 'CounterRemover<EventDispatcher<int, void (VArg), Pol>, void>'
+NRC = 'ConditionalRemover<CallbackList<void (VArg), Pol>, void>'
+NRD = 'ConditionalRemover<EventDispatcher<int, void (VArg), Pol>, void>'
+UNITS['removers'] = dict(
+    tu='inst/removers.cpp', filter=['Remover'], std='c++11',
+    root=('ClassTemplateSpecializationDecl', 'CounterRemover'), root_q=CRC,
+    extra_roots=[('ClassTemplateSpecializationDecl', 'CounterRemover', CRD),
+                 ('ClassTemplateSpecializationDecl', 'ConditionalRemover', NRC),
+                 ('ClassTemplateSpecializationDecl', 'ConditionalRemover', NRD)],
+    names={CRC: 'CRC', CRD: 'CRD', NRC: 'NRC', NRD: 'NRD',
+           CRC + '::Wrapper<UserL>': 'CRCW', CRC + '::Wrapper<UserL>::Data': 'CRCData',
+           CRD + '::Wrapper<UserL>': 'CRDW', CRD + '::Wrapper<UserL>::Data': 'CRDData',
+           NRC + '::ItemByCondition<UserL, UserCond>': 'NRCW', NRC + '::ItemByCondition<UserL, UserCond>::Data': 'NRCData',
+           NRC + '::ItemByCondition<UserL, UserCond0>': 'NRCW0', NRC + '::ItemByCondition<UserL, UserCond0>::Data': 'NRCData0',
+           NRD + '::ItemByCondition<UserL, UserCond>': 'NRDW', NRD + '::ItemByCondition<UserL, UserCond>::Data': 'NRDData',
+           NRD + '::ItemByCondition<UserL, UserCond0>': 'NRDW0', NRD + '::ItemByCondition<UserL, UserCond0>::Data': 'NRDData0',
+           'VArg': 'VArg', 'UserL': 'UserL', 'UserCond': 'UserCond', 'UserCond0': 'UserCond0'},
+    value_records=['VArg', 'UserL', 'UserCond', 'UserCond0', 'CRCData', 'CRDData', 'NRCData', 'NRCData0', 'NRDData', 'NRDData0', 'CRCW', 'CRDW', 'NRCW', 'NRCW0', 'NRDW', 'NRDW0'],
+    opaque_records=['VArg', 'UserL', 'UserCond', 'UserCond0'],
+    ghost_sig=[],
+    type_subst=[('CounterRemover<CallbackList<void (VArg), Pol>>', CRC), ('CounterRemover<EventDispatcher<int, void (VArg), Pol>>', CRD),
+                ('ConditionalRemover<CallbackList<void (VArg), Pol>>', NRC), ('ConditionalRemover<EventDispatcher<int, void (VArg), Pol>>', NRD)],
+    type_rules=[
+      (r'^CallbackList<void \(VArg\), Pol>$', 'record', 'CLT'),
+      (r'^CallbackListBase<void \(VArg\), Pol>$', 'record', 'CLT'),
+      (r'^EventDispatcher<int, void \(VArg\), Pol>$', 'record', 'EDT'),
+      (r'^EventDispatcherBase<', 'record', 'EDT'),
+      (r'::Event$', 'builtin', 'int'),
+      (r'Handle_?$', 'wp', 'Handle'),
+      (r'^std::function<', 'function', 'Callback'),
+    ],
+)
